@@ -11,13 +11,13 @@ RULE = ("margin (L1, real SifchainApp, real margin+clp keepers and message serve
         "valid denom character) of "
         "random depth (10^18..10^27 native, external/native ratio 10^-3..10^3) with random parameters (leverage max 1.5..10, pool-open threshold 0.1/0.5/0.9/0.93/0.99/1 at set-up and changed by MsgUpdateParams, safety factor "
         "0 (exactly), 10^-18, 0.5..1.6, epoch length 1..7, fund percentages 0..1, incremental payment on/off, max open positions 3 or 10000): Open (both "
-        "collateral directions, amounts 0..3x pool depth, leverage 1..max+1, SHORT, unknown pool, both-native, both-non-native, same asset "
+        "collateral directions, amounts 0..3x pool depth, leverage 1..max+1 and 1.001/1.005/1.0099/1.01 (health in the hundreds), SHORT, unknown pool, both-native, both-non-native, same asset "
         "twice), Close (owner, outsider, unknown id), AdminClose/ForceClose (administrator and non-administrators, with/without fund cut), "
         "BeginBlocker every block (epoch boundaries with interest, liquidations), real clp Swap/AddLiquidity/RemoveLiquidity moving the "
         "price by up to 60% of depth, administrator parameter changes (including fund addresses set to a blocked recipient — the margin module account, the sdk fee_collector module account or the "
         "clp module account itself, the sender of every fund payment —, safety factor "
         "1.5/2/10/100, the real MsgAdminCloseAll with and without the fund cut, either or both fund addresses left out of MsgUpdateParams = stored empty, fund percentages 0/0.1/0.5/1, all while positions "
-        "are open; the message is encoded, decoded, ValidateBasic'ed and sent through the message server), plus 14 directed histories per "
+        "are open; the message is encoded, decoded, ValidateBasic'ed and sent through the message server), plus 15 directed histories per "
         "run (the configurations of F14/F14b/F14c; all ten pools at once with positions on both sides of each, two epoch hooks, every "
         "position closed; safety factor exactly 0 with positions pushed below health 1.05 and 1 by a swap, then 10^-18, 1, 1.05, 100 at "
         "successive epoch hooks; two positions of opposite direction in one 10^24/10^24 pool, the earlier (address order) large and under "
@@ -27,7 +27,8 @@ RULE = ("margin (L1, real SifchainApp, real margin+clp keepers and message serve
         "leveraged opens locking the pool (a further open refused) and owner closes while it is locked, mid-epoch and at a boundary, "
         "both collateral sides; opens SOLVED to land exactly on the safety factor (health == 1.05 resp. 1.5, found by trial opens on "
         "discarded branches with the factor set to 0 and the stored position valued by CLPSwap; leverage max 20) with the neighbours one "
-        "unit of collateral above and below, both collateral sides; both fund addresses = the clp module account with fund percentages 0.5 through an interest epoch, a "
+        "unit of collateral above and below, both collateral sides; positions of leverage 1.001..1.02 on both sides while MsgAdminCloseAll (factor 100) and then factor 1000 are "
+        "in force at epoch hooks; both fund addresses = the clp module account with fund percentages 0.5 through an interest epoch, a "
         "mid-epoch Close, AdminClose with the fund cut and AdminCloseAll; interest fund address empty: hook, mid-epoch Close, AdminClose; force-close fund address empty: AdminClose "
         "with/without fund cut, liquidation).  After every operation: full state dump compared "
         "with the model (pools: 13 fields, positions: 13 fields, counters, 7 accounts x 3 denoms) and MarginOK judged on the "
@@ -36,7 +37,8 @@ RULE = ("margin (L1, real SifchainApp, real margin+clp keepers and message serve
         "after every successful Open: health, collateral taken, asset pair; after every removal by message: closer; "
         "after every epoch hook: each removed position's health AT ITS TURN against the stored safety factor — observed through "
         "Keeper.BeginBlocker only: the hook is run on discarded branches of the live state from which that position and the later "
-        "positions of its pool were taken out (DestroyMTP), and the position is valued (UpdateMTPHealth) in the pool that run leaves.  non-trivial = distinct successful "
+        "positions of its pool were taken out (DestroyMTP), and the position is valued in the pool that run leaves — by the keeper's UpdateMTPHealth (c13.forced) and, independently of it, "
+        "by the Lean predicate forcedStateOK on the dumped position and pool record (c13.forcedstate).  non-trivial = distinct successful "
         "Open/Close/AdminClose or epoch-boundary BeginBlocker line")
 TRUSTED_BASE = [
     "Lean 4.33.0 kernel; axioms propext, Classical.choice, Quot.sound (audited per theorem on every run)",
